@@ -1,0 +1,59 @@
+//go:build verif
+
+package tracker
+
+import (
+	"bytes"
+	"context"
+	"net"
+	"sync/atomic"
+	"time"
+)
+
+func baseOf(tr Tracker) *base {
+	switch t := tr.(type) {
+	case *HTTP:
+		return &t.base
+	case *UDP:
+		return &t.base
+	case *Unknown:
+		return &t.base
+	}
+	return nil
+}
+
+// VerifShift moves the time of the last announce attempt d into the past,
+// which is what the clock advancing by d amounts to.
+func VerifShift(tr Tracker, d time.Duration) {
+	b := baseOf(tr)
+	if !b.time.IsZero() {
+		b.time = b.time.Add(-d)
+	}
+}
+
+// VerifTrackerState is a snapshot of a tracker's lifetime state.
+type VerifTrackerState struct {
+	Locked    bool
+	Contacted bool          // an announce was attempted at least once
+	Elapsed   time.Duration // since the last attempt
+	Interval  time.Duration
+	Err       string
+}
+
+func VerifState(tr Tracker) VerifTrackerState {
+	b := baseOf(tr)
+	s := VerifTrackerState{Locked: atomic.LoadInt32(&b.locked) != 0, Contacted: !b.time.IsZero(), Interval: b.interval}
+	if s.Contacted {
+		s.Elapsed = time.Since(b.time)
+	}
+	if b.err != nil {
+		s.Err = b.err.Error()
+	}
+	return s
+}
+
+// VerifUDPRequestReply is the request/retransmission loop of the UDP tracker.
+func VerifUDPRequestReply(ctx context.Context, conn net.Conn, request []byte,
+	min int, action uint32, tid uint32) (*bytes.Reader, error) {
+	return udpRequestReply(ctx, conn, request, min, action, tid)
+}
